@@ -18,6 +18,8 @@ sys.path.insert(0, os.path.dirname(os.path.dirname(os.path.abspath(__file__))))
 def main():
     cfg = json.load(open(sys.argv[1]))
     outpath = sys.argv[2]
+    d, b = os.path.split(outpath)
+    cfg['_journal'] = os.path.join(d, b.replace('out', 'journal', 1))
     from vlib import boot
     boot.activate(impl=cfg.get('impl', 'c'))
     from vlib import core
